@@ -54,6 +54,12 @@ def families(quick):
                                         rmin=(2.5,), rmax=(12.5,))
     F["three_centres"] = sky.SkyConfig(nref=3, nunk=3, zcells="{2}", weights="{1}", centres=(1, 5, 9),
                                        slots=("{0, 1, 4, 6, 9, 10}" if quick else "{0, 1, 2, 4, 5, 6, 8, 9, 10}"), rmin=(2.5,), rmax=(17.5,))
+    # very extended patches: radius_i + radius_j + max_angle exceeds pi (two 'hemispheres' whose members meet at the far side)
+    F["wide_patches"] = sky.SkyConfig(nref=2, nunk=2, zcells="{2}", weights="{1}", centres=(0, 36), slots="{0, 17, 19, 36, 53, 55}",
+                                      rmin=(2.5,), rmax=(12.5,))
+    # binned objects exactly on bin edges (outer and inner), both closed conventions
+    F["on_edges_right"] = sky.SkyConfig(nref=2, nunk=2, zcells="{1, 3, 5}", weights="{1}", slots="{0, 1, 3, 8, 9}", rmin=(2.5,), rmax=(12.5,))
+    F["on_edges_left"] = sky.SkyConfig(nref=2, nunk=2, zcells="{1, 3, 5}", weights="{1}", slots="{0, 1, 3, 8, 9}", rmin=(2.5,), rmax=(12.5,), closed="left")
     if not quick:
         F["angular_big"] = sky.SkyConfig(nref=3, nunk=3, zcells="{2, 4}", weights="{1}", rmin=(2.5,), rmax=(12.5,))
         F["comoving"] = sky.SkyConfig(nref=3, nunk=2, zcells="{2, 4}", weights="{1}", unit="Mpc/h", edges=(0.3, 0.6, 0.9), rmin=(30.0,), rmax=(150.0,))
